@@ -327,6 +327,20 @@ class Exec:
                     return Val(t, self.static_ty(fty))
         if fty is not None and recv.elems != 'cast':
             st.assume(self.type_pred(fty, t, st))
+        if fty is None and cls is None and recv.ty is None and not self.spec_mode:
+            # untyped receiver: whatever library class the object has, its declared field type holds (class invariant assumption)
+            bytype = {}
+            for cq, fl in REG.fields.items():
+                if field in fl and '.' in cq:
+                    try:
+                        ci = self.repo.cls(cq)
+                    except Exception:
+                        continue
+                    for sub in self.repo.subclasses(ci):
+                        bytype.setdefault(fl[field], set()).add(self.w.class_id(sub.qual))
+            for ty_, ids in bytype.items():
+                if ty_ != 'any':
+                    st.assume(z3.Implies(z3.And(is_r(recv.t), z3.Or(*[typ(rv(recv.t)) == i for i in sorted(ids)])), self.type_pred(ty_, t, st)))
         self.assume_allocated(st, t)
         return Val(t, self.static_ty(fty))
 
@@ -353,6 +367,20 @@ class Exec:
         fty = REG.fields.get('symclass', {}).get(name)
         if fty is not None and recv.elems != 'cast':
             st.assume(self.type_pred(fty, t, st))
+        if fty is None and cls is None and recv.ty is None and not self.spec_mode:
+            # untyped receiver: whatever library class the object has, its declared field type holds (class invariant assumption)
+            bytype = {}
+            for cq, fl in REG.fields.items():
+                if field in fl and '.' in cq:
+                    try:
+                        ci = self.repo.cls(cq)
+                    except Exception:
+                        continue
+                    for sub in self.repo.subclasses(ci):
+                        bytype.setdefault(fl[field], set()).add(self.w.class_id(sub.qual))
+            for ty_, ids in bytype.items():
+                if ty_ != 'any':
+                    st.assume(z3.Implies(z3.And(is_r(recv.t), z3.Or(*[typ(rv(recv.t)) == i for i in sorted(ids)])), self.type_pred(ty_, t, st)))
         self.assume_allocated(st, t)
         return Val(t, self.static_ty(fty))
 
@@ -1057,6 +1085,8 @@ class Exec:
             return Val(t, None)
         if base.ty is None:
             # dynamic dispatch on the run-time type
+            if not self.spec_mode and self.quick_unsat(st.pc, z3.Not(is_y(base.t))):
+                return self.getitem(Val(base.t, 'bytes'), idx, st, e)
             isl = z3.And(is_r(base.t), z3.Or(typ(rv(base.t)) == 1, typ(rv(base.t)) == 3))
             isd = z3.And(is_r(base.t), typ(rv(base.t)) == 2)
             iss = is_s(base.t)
